@@ -106,6 +106,16 @@ CHECKS.update({
          "changed at beam time +-40 T with the statement's 'clearly before/after' = +-16 T."),
    note="Trusted: TLC, the recording frame buffer, the clock/bus-write hooks for the beam-relative part. Sampling over screen contents."),
 })
+CHECKS.update({
+ "C09": dict(
+   category="model_checking", design_ref="4 (C09)", technique="TLC exhaustive scaled painter model + TLC validation of recorded border frames against the statement's beam geometry",
+   text=("Border.tla gives the beam time of every border pixel from the property's numbers and, for a frame's ULA writes, the set of colours a pixel may "
+         "show (last write certainly before the beam, or one within the 16-pixel tolerance). MC_Border runs the implementation-shaped painter (beam "
+         "cursor, changed/blocked flags, frame-end fill) on a scaled geometry for every placement of up to 3 writes in a frame (and 1+2 over two frames) "
+         "and requires every pixel to be allowed. On the real emulator OUTs are issued at chosen beam times (several per line, retrace, frame end, none, "
+         "after snapshot loads) and BorderTrace judges each completed 320x240 buffer row by row plus the reported border colour."),
+   note="Trusted: TLC, the clock hook, the assumption that an OUT's write lands inside its I/O cycle. Sampling over write plans."),
+})
 NOT_YET = {}
 
 HOOK_COMMITS = ["71990aa"]
